@@ -270,6 +270,19 @@ class Wrapped(BaseAlgorithm):
         return out
 
 
+class RecordingRampdown(SimpleRampdown):
+    """SimpleRampdown that keeps a copy of what each get_maximum_rates call returned."""
+
+    def __init__(self, *a, **k):
+        super().__init__(*a, **k)
+        self.returned = []
+
+    def get_maximum_rates(self, sessions):
+        out = super().get_maximum_rates(sessions)
+        self.returned.append(dict(out))
+        return out
+
+
 def make_inner(sch):
     k = sch["kind"]
     if k == "uncontrolled":
@@ -278,7 +291,7 @@ def make_inner(sch):
         est = None
         if sch.get("estimator"):
             e = sch["estimator"]
-            est = SimpleRampdown(e.get("up", 1), e.get("down", 1), e.get("inc", 1))
+            est = RecordingRampdown(e.get("up", 1), e.get("down", 1), e.get("inc", 1))
         kw = dict(estimate_max_rate=est is not None, max_rate_estimator=est, uninterrupted_charging=bool(sch.get("uninterrupted")))
         if k == "greedy":
             a = SortedSchedulingAlgo(SORTS[sch["sort"]], **kw)
